@@ -70,8 +70,9 @@ type Op struct {
 	Pess    bool   `json:"pess,omitempty"` // prewrite of a pessimistic transaction over its own pessimistic lock
 }
 type Inject struct {
-	At  int    `json:"at"`  // 1-based index of the gated RPC (ScanLock / ResolveLock / DeleteRange) or PD ScanRegions call
-	Key string `json:"key"` // split the region containing this key at this key
+	At   int    `json:"at"`             // 1-based index of the gated RPC (ScanLock / ResolveLock / DeleteRange) or PD ScanRegions call
+	Key  string `json:"key"`            // split the region containing this key at this key
+	Kind string `json:"kind,omitempty"` // "" = split; "merge" = merge the region containing Key with its right neighbour
 }
 type Case struct {
 	ID        int      `json:"id"`
@@ -281,9 +282,36 @@ func (w *world) nextRPC() int {
 	ks := w.inj[n]
 	w.mu.Unlock()
 	for _, k := range ks {
-		w.split(unhx(k))
+		w.change(k)
 	}
 	return n
+}
+
+// change applies one injected layout change: "<hexkey>" = split, "m:<hexkey>" = merge with the right neighbour
+func (w *world) change(k string) {
+	if len(k) > 2 && k[:2] == "m:" {
+		w.merge(unhx(k[2:]))
+		return
+	}
+	w.split(unhx(k))
+}
+
+// merge the region containing key with its right neighbour (no-op for the last region)
+func (w *world) merge(key []byte) {
+	w.mu.Lock()
+	defer w.mu.Unlock()
+	r1, _, _, _ := w.cluster.GetRegionByKey(mocktikv.NewMvccKey(key))
+	if r1 == nil || len(r1.EndKey) == 0 {
+		return
+	}
+	r2, _, _, _ := w.cluster.GetRegionByKey(r1.EndKey)
+	if r2 == nil || r2.Id == r1.Id {
+		return
+	}
+	boundary := decKey(r1.EndKey)
+	w.cluster.Merge(r1.Id, r2.Id)
+	delete(w.splits, string(boundary))
+	w.events = append(w.events, Event{T: "merge", S: hx(boundary)})
 }
 
 type gate struct {
@@ -522,7 +550,7 @@ func (p *pdGate) ScanRegions(ctx context.Context, startKey, endKey []byte, limit
 	ks := w.pdInj[n]
 	w.mu.Unlock()
 	for _, k := range ks {
-		w.split(unhx(k))
+		w.change(k)
 	}
 	w.mu.Lock()
 	w.events = append(w.events, Event{T: "pdscan", N: n, S: hx(decKey(startKey)), Limit: uint32(limit), Layout: w.layoutLocked()})
@@ -560,10 +588,18 @@ func newWorld(c *Case) (*world, error) {
 	}
 	w.events = nil
 	for _, i := range c.Inj {
-		w.inj[i.At] = append(w.inj[i.At], i.Key)
+		k := i.Key
+		if i.Kind == "merge" {
+			k = "m:" + k
+		}
+		w.inj[i.At] = append(w.inj[i.At], k)
 	}
 	for _, i := range c.PdInj {
-		w.pdInj[i.At] = append(w.pdInj[i.At], i.Key)
+		k := i.Key
+		if i.Kind == "merge" {
+			k = "m:" + k
+		}
+		w.pdInj[i.At] = append(w.pdInj[i.At], k)
 	}
 	// the PD gate sits below the codec PD client (NewKVStore insists on a *CodecPDClient on top): keys are region-encoded here
 	st, err := tikv.NewTestTiKVStore(rpc, &pdGate{Client: pdc, w: w},
@@ -918,6 +954,14 @@ func runCase(c *Case) *Result {
 			}
 		}
 		w.visOn = false
+		var reget []Read
+		if c.Path == "get" {
+			// re-reads on the SAME snapshot object (its cache must hold nothing from a refused read; also covered by C05)
+			_, e1 := snap.Get(ctx, unhx(c.Keys[0]))
+			reget = append(reget, Read{Key: "reget", TS: c.TS, Res: errClass(e1)})
+			_, e2 := snap.BatchGet(ctx, [][]byte{unhx(c.Keys[0])})
+			reget = append(reget, Read{Key: "rebatchget", TS: c.TS, Res: errClass(e2)})
+		}
 		for _, vi := range c.VisInj {
 			if vi.When == "after_call" {
 				probe.UpdateTxnSafePointCache(vi.SP, time.Now())
@@ -929,6 +973,7 @@ func runCase(c *Case) *Result {
 			rd.Res = "ok"
 		}
 		res.Vis = []Read{rd}
+		res.Late = reget
 		res.Locks = got // entries returned before the verdict
 		res.Events = w.events
 		// a later read of the same snapshot sees the after_call update
@@ -1434,6 +1479,29 @@ func (g *gen) gcCase(class string) *Case {
 		c.Splits = g.splits(g.r.Intn(4), keys)
 		c.Limit = uint32(1 + g.r.Intn(4))
 		g.commitSecPopulation(c, keys)
+	case "merge": // a region is MERGED with its right neighbour between ScanLock and ResolveLock (and splits elsewhere)
+		keys = g.keys(8 + g.r.Intn(10))
+		ntxn = 6 + g.r.Intn(8)
+		c.Splits = g.splits(2+g.r.Intn(4), keys)
+		c.Limit = uint32(2 + g.r.Intn(8))
+		for _, at := range []int{2, 4, 6, 8} {
+			if g.r.Intn(3) == 0 {
+				continue
+			}
+			k := keys[g.r.Intn(len(keys))]
+			if g.r.Intn(3) == 0 {
+				k = "" // the first region
+			}
+			kind := "merge"
+			if g.r.Intn(4) == 0 {
+				kind = ""
+			}
+			c.Inj = append(c.Inj, Inject{At: at - g.r.Intn(2)*(g.r.Intn(2)), Key: hx([]byte(k)), Kind: kind})
+		}
+		if g.r.Intn(5) == 0 {
+			c.Conc = 2 + g.r.Intn(3)
+			c.RPT = 1
+		}
 	case "stalepess": // stale-primary pessimistic leftovers next to prewrite locks of the same transaction
 		keys = g.keys(6 + g.r.Intn(10))
 		ntxn = 3 + g.r.Intn(6)
@@ -1694,6 +1762,7 @@ func main() {
 		{func() *Case { return g.gcCase("range") }, 30},
 		{func() *Case { return g.gcCase("split") }, 50},
 		{func() *Case { return g.gcCase("midsplit") }, 40},
+		{func() *Case { return g.gcCase("merge") }, 45},
 		{func() *Case { return g.gcCase("commitsec") }, 25},
 		{func() *Case { return g.gcCase("stalepess") }, 45},
 		{func() *Case { return g.gcCase("conc") }, 30},
